@@ -193,7 +193,8 @@ class Lex(Family):
             'with options, bodies of JSON / diff / delta / example / "#." lines, missing final newline); UTF-8 writer '
             'outputs of random well-ordered call sequences whose contents contain no "#.", and of contents that are n '
             'copies of a 1/2/3/4-byte character (every n up to a bound) before every kind of next section; every header '
-            'rule x option key x hostile value (NUL, lone surrogates, separators, ...); '
+            'rule x option key x hostile value (NUL, lone surrogates, separators, ...); the words of the lexer\'s own '
+            'patterns (harvested from its source) as plain content behind every diff prefix; '
             'sub-lexer results are recorded from the implementation run; non-trivial = some token other than '
             'Token.Text is produced; distinct by the text')
 
@@ -245,6 +246,28 @@ class Lex(Family):
                         obs, data, per = sl.run_writer(sl.S('utf-8'), sl.S('1.0'), calls)
                         if data is not None and all(p_[0] for p_ in per):
                             yield dict(kind='writer', text=data.decode('utf-8'), headers=headers, sweep=True)
+        # the words the lexer's own patterns look for (harvested from its source as it stands now), in writer files where
+        # they are plain content: at the start of a line and behind every diff prefix, as a whole line and inside one
+        import sizes
+        words = sizes.harvested_words()
+        for w in words:
+            lines = [p_ + w + s_ for p_ in ('', '+', '-', ' ', 'x ', '+x ') for s_ in ('', ' 3', ' y')]
+            body = ''.join(l + '\n' for l in lines)
+            if '#.' in body:
+                continue
+            for where in ('diff', 'preamble'):
+                if where == 'diff':
+                    calls = [['new_change', None], ['new_file', None], ['write_meta', {'d': {'path': 'a'}}, None, 'omitted'],
+                             ['write_diff', sl.Bv(('--- a\n+++ b\n@@ -1 +1 @@\n' + body).encode('utf-8')), None, None, None],
+                             ['new_file', None], ['write_meta', {'d': {'path': 'b'}}, None, 'omitted']]
+                    headers = ['#diffx:', '#.change:', '#..file:', '#...meta:', '#...diff:', '#..file:', '#...meta:']
+                else:
+                    calls = [['write_preamble', sl.S(body), None, {'i': 0}, None, None], ['new_change', None], ['new_file', None],
+                             ['write_meta', {'d': {'path': 'a'}}, None, 'omitted']]
+                    headers = ['#diffx:', '#.preamble:', '#.change:', '#..file:', '#...meta:']
+                obs, data, per = sl.run_writer(sl.S('utf-8'), sl.S('1.0'), calls)
+                if data is not None and all(p_[0] for p_ in per):
+                    yield dict(kind='writer', text=data.decode('utf-8'), headers=headers, words=True)
         want = 250 if quick else 4000
         got = 0
         tries = 0
